@@ -374,6 +374,34 @@ def worker(shard):
                 acc.violation('wide-text/not-bytes-or-no-round-trip',
                               f'MetaMessage({type_!r}, {name}={wide!a}).bytes() '
                               f'= {_short(b)}', case)
+        if type_ in ('text', 'lyrics'):
+            # exactly at the reader's limit: a payload of 1 000 000 bytes is
+            # read from a track; one byte more is refused by the reader
+            for n, must_load in ((999999, True), (1000000, True)):
+                acc.evals += 1
+                acc.nontrivial += 1
+                case = {'kind': 'limit', 'type': type_, 'len': n}
+                try:
+                    m = mido.MetaMessage(type_, **{name: 'y' * n})
+                    b = m.bytes()
+                    if list(b[:2]) != [0xFF, rm.TABLE[type_][0]] or \
+                            list(b[2:2 + len(rm.vlq(n))]) != rm.vlq(n) or \
+                            len(b) != 2 + len(rm.vlq(n)) + n:
+                        acc.violation(f'limit/bytes/len={n}',
+                                      f'{type_} with {n} characters: header '
+                                      f'{list(b[:8])}', case)
+                        continue
+                    m3 = mido.MidiFile(
+                        file=io.BytesIO(track_file(b))).tracks[0][0]
+                    if vars(m3) != vars(m):
+                        acc.violation(f'limit/file-differs/len={n}',
+                                      f'{type_} with {n} characters read back '
+                                      f'with {len(getattr(m3, name, ""))}', case)
+                except Exception as e:
+                    acc.violation(f'limit/raises/len={n}/{type(e).__name__}',
+                                  f'{type_} with {n} characters (the reader\'s '
+                                  f'limit is 1 000 000 bytes per message): '
+                                  f'{e!r}', case)
         # the codec under another charset in force (meta_charset block):
         # payload is the text in that charset and decodes back
         from mido.midifiles.meta import meta_charset
